@@ -109,11 +109,21 @@ def run(ctx):
             if i % 5 == 0:
                 # byte payloads: every byte value, empty, large
                 for k, name in enumerate(sorted(pkg.media)):
-                    pkg.media[name] = [bytes(range(256)), b"", bytes(rng.randrange(256) for _ in range(100000 if ctx.thorough else 5000))][k % 3]
+                    big = 100000 if (ctx.thorough or i == 0) else 5000      # one payload above the 64 KiB copy/encode block size in every run
+                    pkg.media[name] = [bytes(rng.randrange(256) for _ in range(big)), bytes(range(256)), b""][k % 3]
             named = rng.random() < 0.5
             d = os.path.join(wd.path, "c%d" % i)
             os.makedirs(d)
             conv = rng.choice(["data_uri", "data_uri", "counting", "counting_alt", "no_open"])
+            if i < 2:
+                # dedicated cases: one embedded image larger than any 64 KiB block, default converter / counting converter
+                from mammoth.docx.xmlparser import element as X
+                g = gen_xml.XGen(rng, textboxes=False, notes=False, comments=False, deleted=False, fields=False, linked_rate=0.0)
+                pkg = g.package(1)
+                pkg.body.append(X("w:p", {}, [X("w:r", {}, [g.drawing()])]))
+                name = sorted(pkg.media)[-1]
+                pkg.media[name] = bytes(rng.randrange(256) for _ in range(70000 + i))
+                conv = ["data_uri", "counting"][i]
             opts = {"style_map": None, "include_default_style_map": True, "include_embedded_style_map": True,
                     "ignore_empty_paragraphs": True, "id_prefix": None, "conv": conv}
             data, parts = B.build(pkg)
@@ -147,7 +157,11 @@ def run(ctx):
                     if conv == "data_uri":
                         src = a.get("src", "")
                         head = "data:%s;base64," % ct
-                        if not src.startswith(head) or base64.b64decode(src[len(head):]) != bytes(data_):
+                        try:
+                            payload = base64.b64decode(src[len(head):], validate=True) if src.startswith(head) else None
+                        except Exception:
+                            payload = None
+                        if payload != bytes(data_):
                             bad = "image %d: src is not a data URI of the part's bytes under content type %s" % (k, ct)
                         elif (a.get("alt") or None) != (alt or None):
                             bad = "image %d: alt %r, expected %r" % (k, a.get("alt"), alt)
